@@ -37,6 +37,7 @@ GLOBAL_REWRITES = [
     ('R3', r'\bunreachable!\(\)', 'vunreachable()', 'panic site -> proof obligation'),
     ('R4', r'\bstd::cmp::min\(', 'vmin(', 'std::cmp::min -> spec\'d prelude vmin'),
     ('R4', r'(?<![\w.:])min\(', 'vmin(', 'std::cmp::min (imported) -> spec\'d prelude vmin'),
+    ('R12', r'\|_\|', '|_x|', 'closure parameter `_` -> named (Verus takes only variables there)'),
     ('R5', r"\bBS<'_, ([A-Za-z:]+)>", r'<\1 as Bitmap>::S', 'HRTB alias BS'),
     ('R5', r'\bBS<Self::B>', r'<Self::B as Bitmap>::S', 'HRTB alias BS'),
     ('R5', r'\bBS<B>', r'<B as Bitmap>::S', 'HRTB alias BS'),
